@@ -1,0 +1,10 @@
+//go:build verif
+
+package ocr
+
+// Test-only export for the /verif harness (compiled only with -tags verif).
+// ReportTracker is otherwise stopped only by its finalizer; a testing/synctest
+// bubble needs its goroutine to end.
+
+// VerifStop stops the report tracker's goroutine.
+func (rt *ReportTracker) VerifStop() { rt.stop() }
